@@ -45,6 +45,8 @@ where
             }
         };
         writeln!(wr, "{res}").expect("write");
+        // a hang or crash of the code under test must leave the earlier results on disk
+        wr.flush().expect("flush");
     }
     wr.flush().expect("flush");
 }
